@@ -43,6 +43,9 @@ type Spec struct {
 	ExtraEnv    []string
 	// Prepare runs before the harness is built (e.g. to generate a corpus) and may return extra environment.
 	Prepare func(scratch string) ([]string, error)
+	// Budget is the wall-clock budget of the enumeration tests that iterate over a corpus: they get the deadline as
+	// VERIF_DEADLINE_UNIX and do not start another program after it (0: none).
+	Budget time.Duration
 	// EnumShards > 1 runs every enumeration test in that many processes (VERIF_SHARD / VERIF_SHARDS).
 	EnumShards int
 	// KnownMatch attributes a violation to a listed finding ("" if none).
@@ -101,6 +104,9 @@ func runProc(spec Spec, bin, scratch, test, seed string, idx int, extraArgs []st
 	cmd := exec.Command(bin, args...)
 	cmd.Dir = dir
 	cmd.Env = append(os.Environ(), "VERIF_OUT="+out, "VERIF_TIER="+spec.Tier, fmt.Sprintf("VERIF_SEED=%d", spec.Seed), "VERIF_REPO="+jbuild.Repo(), "VERIF_DIR="+jbuild.VerifDir())
+	if spec.Budget > 0 {
+		cmd.Env = append(cmd.Env, fmt.Sprintf("VERIF_DEADLINE_UNIX=%d", time.Now().Add(spec.Budget).Unix()))
+	}
 	cmd.Env = append(cmd.Env, spec.ExtraEnv...)
 	cmd.Env = append(cmd.Env, extraEnv...)
 	var buf strings.Builder
